@@ -48,7 +48,7 @@ impl<B: BitVector> Iterator for BitIterator<'_, B> {
     }
 
     fn nth(&mut self, n: usize) -> Option<Self::Item> {
-        if self.range.start + n < self.range.end {
+        if n < self.range.end - self.range.start {
             let bit = self.bv.get(self.range.start + n);
             self.range.start += n + 1;
             Some(bit)
@@ -70,7 +70,7 @@ impl<B: BitVector> DoubleEndedIterator for BitIterator<'_, B> {
     }
 
     fn nth_back(&mut self, n: usize) -> Option<Self::Item> {
-        if self.range.start + n < self.range.end {
+        if n < self.range.end - self.range.start {
             self.range.end -= n + 1;
             Some(self.bv.get(self.range.end))
         } else {
